@@ -410,3 +410,27 @@ def extra_evidence(recs, cases_):
     D = _data()
     return {"categorical_spaces": {"resolutions": len(RESOLUTIONS), "technology_x_use_case_in_packaged_table": len(D["web_pairs"]),
                                    "provider_x_model": len(D["models"]), "provider_x_instance_type": len(D["instances"])}}
+
+
+def categorical_alternatives(rnd, spec, n, p):
+    """valid other values of a builder's categorical input (same provider for models / instance types)"""
+    D = _data()
+    O = spec["objects"]
+    o = O[n]
+    cur = o["params"][p][1]
+    if o["cls"] == "VideoStreamingJob" and p == "resolution":
+        return [r for r in RESOLUTIONS if r != cur][:2]
+    if o["cls"] == "WebApplication" and p == "technology":
+        ucs = {O[j]["params"]["implementation_details"][1] for j, jo in O.items() if jo["cls"] == "WebApplicationJob" and jo["params"]["service"][1] == n}
+        return [t for t in D["techs"] if t != cur and all((t, uc) in D["web_pairs"] for uc in ucs)][:2]
+    if o["cls"] == "WebApplicationJob" and p == "implementation_details":
+        te = O[o["params"]["service"][1]]["params"]["technology"][1]
+        return [c for t, c in D["web_pairs"] if t == te and c != cur][:2]
+    if o["cls"] == "GenAIModel" and p == "model_name":
+        prov = o["params"]["provider"][1]
+        return [m for pr, m in D["models"] if pr == prov and m != cur and model_params(pr, m)[1] <= 80][:2]
+    if o["cls"] == "BoaviztaCloudServer" and p == "instance_type":
+        prov = o["params"]["provider"][1]
+        c = [i for pr, i in D["instances"] if pr == prov and i != cur]
+        return rnd.sample(c, min(2, len(c)))
+    return []
